@@ -1395,6 +1395,31 @@ class ExprMixin(object):
                     for r in self.slice(st1, u, lo, hi, fr):
                         yield r
             return
+        if k == 'any':
+            t = base.term
+            a = Val.addr(t)
+            cls = self.H(st, 'cls')
+            cases = [('str', Val.is_VStr(t), None)]
+            for n in ('tuple', 'list'):
+                cases.append((n, z3.And(Val.is_VRef(t), a > 0, cls[a] == self.world.cid(n)), None))
+            cases.append(('scalar', z3.Or(t == VNONE, Val.is_VInt(t), Val.is_VBool(t)), None))
+            rest = z3.Not(z3.Or(*[c for _, c, _ in cases]))
+            for tag, cnd, _ in cases:
+                stc = st.assume(cnd)
+                if not self.feasible(stc):
+                    continue
+                if tag == 'str':
+                    inner = SV(Val.sval(t), STR)
+                elif tag in ('tuple', 'list'):
+                    inner = SV(a, TupleVar(ANY) if tag == 'tuple' else ListT(ANY))
+                else:
+                    yield self.raise_(stc, TypeError, 'object is not subscriptable')
+                    continue
+                for r in self.slice(stc, inner, lo, hi, fr):
+                    yield r
+            if self.feasible(st.assume(rest)):
+                raise OutOfReach('slice of a dynamically typed value that may be an object of another class')
+            return
         if k == 'obj' and base.ty.args[0] in getattr(self.world, 'tuple_records', {}):
             # record[lo:] with a constant lo: one branch per modelled arity
             fields = self.world.tuple_records[base.ty.args[0]]
